@@ -10,6 +10,9 @@
 //!     thread the owner of what it waits for (then r = completed).
 //! I3  the wait-for graph rebuilt from Block / Retarget / Wake is acyclic after every record.
 //! I4  no `Block(w, _, o)` is recorded when `o == w` or `o` already waits (transitively) for `w`.
+//! I5  when the owner of handed-over queries releases them (the cascade `TransferEnded(o)`,
+//!     `Release(q, r)`, `TransferEnded(q)`, `Release(q', r')`, ... written under one lock), every
+//!     query is released with the outcome its owner was released with, at every nesting depth.
 
 use std::collections::BTreeMap;
 
@@ -31,6 +34,13 @@ pub struct ProtoCheck {
     pub transfers: u64,
     pub wakes_not_completed: u64,
     pub retargets: u64,
+    /// query -> query that holds its lock (from `Transfer` records)
+    transferred: BTreeMap<(u32, u64), (u32, u64)>,
+    /// outcome of the last release of a key
+    last_release: BTreeMap<(u32, u64), u8>,
+    /// owners whose hand-overs are being dissolved in the cascade under way
+    in_cascade: Vec<(u32, u64)>,
+    pub nested_releases: u64,
 }
 
 #[derive(Default, Clone, Copy, PartialEq, Eq)]
@@ -105,12 +115,33 @@ impl ProtoCheck {
                 }
                 T::Release { key, result } => {
                     self.cause = Cause::Release(*key, *result);
+                    if let Some(o) = self.transferred.get(key).copied() {
+                        if self.in_cascade.contains(&o) {
+                            if self.in_cascade.len() >= 2 {
+                                self.nested_releases += 1;
+                            }
+                            if let Some(ro) = self.last_release.get(&o) {
+                                if ro != result {
+                                    out.push(v(
+                                        "c19-transferred-query-released-with-other-outcome",
+                                        format!("record #{i}: {key:?}, whose lock was handed over to {o:?}, is released with result {result} although {o:?} was released with {ro}"),
+                                    ));
+                                }
+                            }
+                            self.transferred.remove(key);
+                        }
+                    }
+                    self.last_release.insert(*key, *result);
                 }
-                T::Transfer { new_owner_thread, .. } => {
+                T::Transfer { query, new_owner, new_owner_thread, .. } => {
                     self.transfers += 1;
                     self.cause = Cause::Transfer(*new_owner_thread);
+                    self.transferred.insert(*query, *new_owner);
                 }
-                T::TransferEnded { .. } => {}
+                T::TransferEnded { query } => {
+                    self.transferred.remove(query);
+                    self.in_cascade.push(*query);
+                }
                 T::Wake { thread, result } => {
                     if *result != 0 {
                         self.wakes_not_completed += 1;
@@ -151,8 +182,8 @@ impl ProtoCheck {
                 }
                 _ => {}
             }
-            if !matches!(e, T::Wake { .. } | T::Release { .. } | T::Transfer { .. } | T::Retarget { .. } | T::TransferEnded { .. } | T::CycleHead { .. } | T::Raw(..)) {
-                // nothing
+            if !matches!(e, T::Wake { .. } | T::Release { .. } | T::TransferEnded { .. } | T::CycleHead { .. } | T::Raw(..)) {
+                self.in_cascade.clear();
             }
             if matches!(e, T::Block { .. } | T::Retarget { .. }) && !self.acyclic() {
                 out.push(v("c19-wait-graph-cyclic", format!("record #{i}: the wait-for graph has a cycle after {e:?}")));
@@ -168,5 +199,8 @@ impl ProtoCheck {
         self.pending.clear();
         self.woken.clear();
         self.waitfor.clear();
+        self.transferred.clear();
+        self.last_release.clear();
+        self.in_cascade.clear();
     }
 }
